@@ -56,11 +56,7 @@ let prop_of = function
 let rec_of = function
   | A "n" -> NoRRule
   | A "e" -> RRuleErr
-  | L [A "r"; L rows; L insts] ->
-    RSet (List.map (function
-            | L [s; e; L l] -> ((optz s, optz e), List.map z_ l)
-            | _ -> raise (Parse_error "between row")) rows,
-          List.map z_ insts)
+  | L [A "r"; L seq; hz; L insts] -> RSet (List.map z_ seq, optz hz, List.map z_ insts)
   | _ -> raise (Parse_error "rec")
 
 let rec comp_of = function
@@ -88,6 +84,8 @@ let rec cf_flags = function CF (_, nd, _, _, pfs, cfs) ->
   List.iter cf_flags cfs
 let rec comp_recurring = function Comp (_, _, r, ch) ->
   (match r with RSet _ -> true | _ -> false) || List.exists comp_recurring ch
+let rec comp_cut = function Comp (_, _, r, ch) ->
+  (match r with RSet (_, Some _, _) -> true | _ -> false) || List.exists comp_cut ch
 
 let show_res show = function
   | Ok b -> "ok(" ^ show b ^ ")"
@@ -116,17 +114,18 @@ let () =
       (match o.o_data with
        | Some c ->
          if comp_recurring c then bump "with_recurring_component";
+         if comp_cut c then bump "with_unending_rule_cut_at_horizon";
          if not (times_ok f c) then bump "unreadable_time_value_under_time_range";
-         if not (between_ok f c) then bump "rrule_between_contract_broken"
+         if not (rset_ok f c) then bump "rrule_iterator_contract_broken"
        | None -> bump "nil_object");
       (* non-trivial: the filter has more than its root node, or a time range *)
       if cf_size f >= 2 || cf_has_range f then note_nontrivial (show (List.hd sx));
       let agree = match_agrees f o ob and spec = match_spec_ok f o ob in
-      let kf = if agree && not spec && match_kf f o then "recurring_overlap" else "-" in
-      (* rrule's Between deviating from its contract is a broken hypothesis about a library,
-         reported as a disagreement *)
-      let agree = agree && (match o.o_data with Some c -> between_ok f c | None -> true) in
-      verdict ~agree ~spec ~kf
+      (* rrule-go's iterator deviating from its contract (instances other than the independently
+         computed ones, or out of order) is a broken hypothesis about a library, reported as a
+         disagreement *)
+      let agree = agree && (match o.o_data with Some c -> rset_ok f c | None -> true) in
+      verdict ~agree ~spec ~kf:"-"
         ~detail:(Printf.sprintf "model=%s spec=%s" (show_res string_of_bool (match_top f o))
                    (match o.o_data with Some c -> string_of_bool (rfc4791_comp f c) | None -> "panic"))
     | [L [A "filter"; q; _objs]; L (A "trees" :: trees); obs] ->
@@ -143,8 +142,10 @@ let () =
       bump (match ob with FOk _ -> "fobs_ok" | FErr -> "fobs_err" | FPanic -> "fobs_panic");
       if List.length os >= 2 then note_nontrivial (show (List.hd sx));
       let agree = filter_agrees q os ob and spec = filter_spec_ok q os ob in
-      let kf = if agree && not spec && filter_kf q os then "recurring_overlap" else "-" in
-      verdict ~agree ~spec ~kf
+      let agree = agree && (match q with
+          | Some f -> List.for_all (fun o -> match o.o_data with Some c -> rset_ok f c | None -> true) os
+          | None -> true) in
+      verdict ~agree ~spec ~kf:"-"
         ~detail:(Printf.sprintf "model=%s"
                    (show_res (fun l -> String.concat "," (List.map (fun o -> string_of_int (int_of_n o.o_tag)) l)) (filter_objs q os)))
     | _ -> raise (Parse_error "line"))
